@@ -16,7 +16,9 @@ rundemo() {
   local d=$W/_demo; rm -rf $d; mkdir -p $d; cd $d
   if [ -f "$S/demo.c" ]; then
     sed "s#/tmp/wt/[A-Za-z0-9]*#$W#g" "$S/demo.c" > demo.c
-    cc -g -I$W/hdf/src -I$W/mfhdf/src -I$W/_build demo.c -o demo $W/_build/bin/libmfhdf.a $W/_build/bin/libhdf.a -ljpeg -lz -lm >/dev/null 2>&1 || { echo 98; return; }
+    # a demo that interposes stdio names its linker flags (-Wl,--wrap=...) in its header comment
+    XLD=$(grep -o -- '-Wl,--wrap=[A-Za-z_,=-]*' demo.c | sort -u | tr '\n' ' ')
+    cc -g $XLD -I$W/hdf/src -I$W/mfhdf/src -I$W/_build demo.c -o demo $W/_build/bin/libmfhdf.a $W/_build/bin/libhdf.a -ljpeg -lz -lm -ldl >/dev/null 2>&1 || { echo 98; return; }
     timeout 300 ./demo >demo.out 2>&1; echo $?
   else
     sed "s#/tmp/wt/[A-Za-z0-9]*#$W#g" "$S/demo.sh" > demo.sh; chmod +x demo.sh
